@@ -1,4 +1,5 @@
 import PicoProofs.EndToEnd
+import PicoProofs.SpecPerm
 import PicoProofs.GoTieApi
 import PicoProofs.Tie
 /-
@@ -33,6 +34,43 @@ theorem C02_source_unmarshal_is_spec (S : Schema) (hS : S.supported = true) (id 
       (err = none → Spec.specUnmarshal S id data m0 = some m) := by
   obtain ⟨d, m, hr, h1, h2⟩ := unmarshal_refines_spec S hS id data m0 hm0
   exact ⟨m, d.err, GoTie.srcUnmarshal_of S id data m0 d m hr, h1, h2⟩
+
+/-- "fields in any order": rearranging the records of an encoding by exchanging neighbours that belong
+to different fields (not two members of one oneof; unknown fields freely unless they are captured) —
+i.e. any permutation that keeps each field's own occurrences, each oneof's members and captured
+unknown fields in their relative order — does not change what the specification decodes -/
+theorem C02_order_independent (S : Schema) (id : Nat) (n n' : Nat) (b b' : Bytes) (rs rs' : List Spec.Record) (m : Val)
+    (h : Spec.records n b = some rs) (h' : Spec.records n' b' = some rs') (hp : Spec.Perm.PermI S id rs rs')
+    (hw : Spec.Perm.Wide S id m) :
+    Spec.specUnmarshal S id b m = Spec.specUnmarshal S id b' m :=
+  Spec.Perm.specUnmarshal_perm S id n n' b b' rs rs' m h h' hp hw
+
+/-- … and therefore neither does the decoder itself, run through the translated Go source: both
+orders are accepted or rejected together, and when accepted yield the same message -/
+theorem C02_source_order_independent (S : Schema) (hS : S.supported = true) (id : Nat) (n n' : Nat) (b b' : Bytes)
+    (rs rs' : List Spec.Record) (h : Spec.records n b = some rs) (h' : Spec.records n' b' = some rs')
+    (hp : Spec.Perm.PermI S id rs rs') :
+    ∃ m e m' e', GoTie.srcUnmarshal S id b (zeroMsg S id) = .ok (m, e) ∧
+      GoTie.srcUnmarshal S id b' (zeroMsg S id) = .ok (m', e') ∧ (e = none ↔ e' = none) ∧ (e = none → m = m') := by
+  obtain ⟨d, m, hr, h1, h2⟩ := unmarshal_new_refines_spec S hS id b
+  obtain ⟨d', m', hr', h1', h2'⟩ := unmarshal_new_refines_spec S hS id b'
+  have heq := Spec.Perm.specUnmarshal_perm S id n n' b b' rs rs' (zeroMsg S id) h h' hp (Spec.Perm.wide_zeroMsg S id)
+  refine ⟨m, d.err, m', d'.err, GoTie.srcUnmarshal_of S id b _ d m hr, GoTie.srcUnmarshal_of S id b' _ d' m' hr', ?_, ?_⟩
+  · rw [h1, h1', heq]
+  · intro he
+    have hs := h2 he
+    have he' : d'.err = none := by rw [h1', ← heq, ← h1]; exact he
+    have hs' := h2' he'
+    rw [heq] at hs
+    rw [hs] at hs'
+    exact Option.some.inj hs'
+
+/-- non-vacuity: two records of different fields may be exchanged -/
+example : Spec.Perm.PermI [⟨[⟨1, .scalar .int32, 0, 0, false, 0⟩, ⟨2, .scalar .string, 0, 0, false, 0⟩], false, false⟩] 0
+    [⟨1, 0, [5]⟩, ⟨2, 2, [1, 65]⟩] [⟨2, 2, [1, 65]⟩, ⟨1, 0, [5]⟩] :=
+  Spec.Perm.PermI.swap [] _ _ [] (by
+    show Spec.Perm.IndepK 0 1 _ _
+    exact ⟨by decide, Or.inl rfl⟩)
 
 /-- into a fresh message (the usual call), no hypothesis on anything but the schema -/
 theorem C02_unmarshal_fresh_is_spec (S : Schema) (hS : S.supported = true) (id : Nat) (data : Bytes) :
